@@ -1168,7 +1168,8 @@ def _apply_rolling(
 
     if values_are_times:
         if operation == "diff":
-            result = result.view("m8[ns]")
+            # differences are in the unit of the input
+            result = result.view(f"m8[{np.datetime_data(orig_dtype)[0]}]")
         else:
             result = result.view(orig_dtype)
 
@@ -1594,7 +1595,7 @@ def _rolling_shift_or_diff_1d(
             if group_counts[key] >= window:
                 if want_shift:
                     out[i] = group_buffers[key, pos]
-                else:
+                elif not (is_null(val) or is_null(group_buffers[key, pos])):
                     out[i] = val - group_buffers[key, pos]
             else:
                 group_counts[key] += 1
